@@ -14,9 +14,8 @@ from sa.selftest import Mutant, Silent
 from sa.source import AnalysisError, base_names, class_assigns, methods
 
 PROPERTY = "C30"
-INCLUDE = [("C16", ("intn/segmentation-invariant",), "BinaryBoxProtocol is an Int16StringReceiver: C16's evaluated segmentation invariance of the length-prefixed receivers is "
-            "necessary for 'parsing it back, with the byte stream split arbitrarily' (C16's CFG-shaped intn/* rules are not included: they alarm on the behaviour-preserving "
-            "refactor C30r4, and reader/split-invariance below evaluates the same clause end to end)")]
+INCLUDE = [("C16", ("intn",), "BinaryBoxProtocol is an Int16StringReceiver: C16's rules about the length-prefixed receivers (framing comparisons, slices, limits and the evaluated "
+            "segmentation invariance) are necessary for 'parsing it back, with the byte stream split arbitrarily'")]
 AMP = "protocols/amp.py"
 BASIC = "protocols/basic.py"
 QA = "twisted.protocols.amp"
@@ -32,8 +31,8 @@ EXPLANATION = (
     "are contiguous; every Argument subclass pairs its two directions; ListOf's prefix format and DateTime's %-format vs "
     'slice table agree. A structural rule that cannot recognise a shape abstains with a note. BOUNDED second layer '
     '(interpreted code, verdict about the listed inputs): serialize outputs parsed back by an independent parser, 255/256 '
-    'and 65535/65536-byte items, non-bytes keys/values refused, the empty key (known finding F30 - bounded evidence: the '
-    'statement needs a refusal, which no dominating guard provides); the reader pipeline fed a multi-box stream at every '
+    'and 65535/65536-byte items, non-bytes keys/values refused, the empty key refused (finding F30, repaired by commit '
+    '3d4becf: reverting the refusal is a self-test mutant reported on the finding\'s construct); the reader pipeline fed a multi-box stream at every '
     'cut, byte by byte and at pairs of cuts, key limit in force as first and second key; value round trips of Integer, '
     'String, Unicode, Boolean, Float, Decimal, DateTime (18 UTC offsets), ListOf (empty elements everywhere, nested), '
     'AmpList and the toBox/fromBox key mapping. Bounded evidence only: value equality of the argument codecs and '
@@ -777,6 +776,10 @@ MUTANTS = [
            more=[(AMP, "from struct import pack\n", "from struct import pack, unpack\n")], expect_rule="argument/list-round-trip"),
     Mutant("datetime-sign-index", AMP, "        sign = s[26]\n", "        sign = s[25]\n", expect_rule="datetime/round-trip"),
     Mutant("frombox-raw-key", AMP, "        nk = _wireNameToPythonIdentifier(name)\n", "        nk = nativeString(name)\n", expect_rule="argument/box-round-trip"),
+    # the repaired finding F30 (commit 3d4becf): reverting or weakening the fix must be reported on "<empty key>"
+    Mutant("F30-fix-reverted-empty-key-serialised", AMP, "            if len(k) == 0:\n                # A zero-length key is what terminates a box on the wire.\n                raise ValueError(f\"Empty key not allowed (value: {v!r})\")\n", "",
+           expect_rule="box/key-length-lower-bound"),
+    Mutant("F30-fix-weakened-empty-key-test-never-true", AMP, "            if len(k) == 0:\n", "            if len(k) < 0:\n", expect_rule="box/key-length-lower-bound"),
 ]
 
 SILENT = [
@@ -796,8 +799,9 @@ SILENT = [
     Silent("append-without-alias", AMP, '        w(pack("!H", 0))\n', '        L.append(b"\\x00\\x00")\n'),
     Silent("framing-flipped-comparisons", BASIC, "            if len(alldata) < messageEnd:\n                break\n", "            if not (messageEnd <= len(alldata)):\n                break\n",
            more=[(BASIC, "            if length > self.MAX_LENGTH:\n", "            if self.MAX_LENGTH < length:\n")]),
-    Silent("f30-repaired-empty-key-refused", AMP, "            if len(k) > MAX_KEY_LENGTH:\n", "            if len(k) < 1 or len(k) > MAX_KEY_LENGTH:\n"),
-    Silent("f30-repaired-truthiness", AMP, "            if len(k) > MAX_KEY_LENGTH:\n", "            if not k:\n                raise TooLong(True, True, k, None)\n            if len(k) > MAX_KEY_LENGTH:\n"),
+    Silent("empty-key-refusal-as-length-below-one", AMP, "            if len(k) == 0:\n", "            if len(k) < 1:\n"),
+    Silent("empty-key-refusal-as-truthiness-raising-toolong", AMP, "            if len(k) == 0:\n                # A zero-length key is what terminates a box on the wire.\n                raise ValueError(f\"Empty key not allowed (value: {v!r})\")\n",
+           "            if not k:\n                raise TooLong(True, True, k, None)\n"),
     Silent("datetime-sign-ge", AMP, "        if minutesOffset > 0:\n", "        if minutesOffset >= 0:\n"),
     Silent("explicit-bytes-test-added", AMP, "            if len(k) > MAX_KEY_LENGTH:\n                raise TooLong(True, True, k, None)\n",
            "            if not isinstance(k, (bytes, bytearray)) or not isinstance(v, (bytes, bytearray)):\n                raise TypeError(\"keys and values must be bytes\")\n            if len(k) > MAX_KEY_LENGTH:\n                raise TooLong(True, True, k, None)\n"),
